@@ -1,6 +1,7 @@
 import DimodProofs.CqmLiftMore
 import DimodProofs.CqmHistory
 import DimodProofs.CqmHistory2
+import DimodProofs.CqmHistory3
 
 /-! # C05 — a CQM keeps every expression attached to the right variables
 
@@ -711,6 +712,73 @@ example :
     ∧ (∀ k, k < ops.length → ((demo.run (ops.take k)).step (ops.getD k .deepcopy)).2 = none)
     ∧ (demo.run ops).labels = [.str "x", .str "i", .str "y", .int 3, .str "z"]
     ∧ (demo.run ops).clabels = [.str "c'", .str "m", .str "d", .str "soft"] := by
+  decide +kernel
+
+/-- **`relabel_variables(mapping)` is ONE function of the list of polynomials** (`LCqm.relabelVariables`): variable labels,
+    the type / bounds table, the private order and every coefficient of the objective and of every constraint are carried to
+    the new labels (swaps and cycles included); labels outside the image carry nothing; constraint labels and attributes are
+    untouched.  (`relabel_refines` is the per-field form.) -/
+theorem relabel_variables_refines (m m' : Cqm) (h : RefInv m) (mp : List (Label × Label))
+    (hstep : m.step (.relabelVariables mp) = (m', none)) : absCqm m' = (absCqm m).relabelVariables mp :=
+  refines_relabelVariablesF h mp hstep
+
+/-- **The history theorem over every `Cqm.Op`.**  `specStepFull` is a specification step on the list of label-keyed
+    polynomials for ALL 30 `Cqm.Op` constructors — `specStepAll` plus `relabel_variables` — with one branch left out:
+    `flip_variable` of a BINARY variable.  From any reachable state, along any list of operations whose calls all return
+    (model arguments well formed, no BINARY/SPIN self-loops), the abstraction of the CQM's state — variables with types and
+    bounds, objective, every constraint with its private order, terms, sense, rhs, weight, penalty and mark — is the fold of that
+    one function: "exactly … what the same sequence produces on a plain list of polynomials".
+    Gap (hence `_partial`): `flip_variable(v)` with `v` BINARY also clears the discrete mark of the constraints that are
+    discrete and contain `v`; `is_discrete` = marked ∧ one-hot needs `is_linear` (no STORED interaction, a zero-bias one
+    included), which the coefficient functions of a label-keyed polynomial cannot express; its polynomial part is
+    `refines_flipVariable`.  `fix_variables(inplace=False)` is not a mutation of the model (`fix_copy_is_fix_inplace`). -/
+theorem history_refines_every_op_partial (pre ops : List Cqm.Op) (hpre : ∀ op ∈ pre, OpOK op) (hops : ∀ op ∈ ops, OpOK2 op)
+    (hsucc : Succeeds (({} : Cqm).run pre) ops) (s' : LCqm)
+    (hspec : specRunFull (absCqm (({} : Cqm).run pre)) ops = some s') :
+    absCqm (({} : Cqm).run (pre ++ ops)) = s' := by
+  have hinv : RefInv (({} : Cqm).run pre) :=
+    ⟨history_inv pre hpre, history_labels pre, history_keysym pre hpre, history_sorted pre hpre⟩
+  have : ({} : Cqm).run (pre ++ ops) = (({} : Cqm).run pre).run ops := by
+    unfold Cqm.run; rw [List.foldl_append]
+  rw [this]
+  exact specRunFull_refines ops hinv hops hsucc s' hspec
+
+/-- the only operations outside `specStepFull` are flips of a non-SPIN variable: for every other operation the specification
+    step is defined whenever the call can succeed at all on the arguments' shape (bounds need the variable to exist) -/
+theorem specStepFull_defined (s : LCqm) (op : Cqm.Op) :
+    (specStepFull s op).isSome = true
+    ∨ (∃ v, op = .flipVariable v ∧ s.vtOf v ≠ .spin)
+    ∨ (∃ vt v, op = .changeVartype vt v ∧ s.changeVartype vt v = none)
+    ∨ (∃ v x, (op = .setLowerBound v x ∨ op = .setUpperBound v x) ∧ s.info v = none) := by
+  cases op with
+  | flipVariable v =>
+    by_cases h : s.vtOf v = .spin
+    · left; simp [specStepFull, specStepAll, LCqm.flipSpin, h]
+    · right; left; exact ⟨v, rfl, h⟩
+  | changeVartype vt v =>
+    cases h : s.changeVartype vt v with
+    | some x => left; simp [specStepFull, specStepAll, h]
+    | none => right; right; left; exact ⟨vt, v, rfl, h⟩
+  | setLowerBound v x =>
+    cases h : s.info v with
+    | some i => left; simp [specStepFull, specStepAll, h]
+    | none => right; right; right; exact ⟨v, x, Or.inl rfl, h⟩
+  | setUpperBound v x =>
+    cases h : s.info v with
+    | some i => left; simp [specStepFull, specStepAll, h]
+    | none => right; right; right; exact ⟨v, x, Or.inr rfl, h⟩
+  | removeConstraint label cascade => left; cases cascade <;> simp [specStepFull, specStepAll, specStep]
+  | _ => left; simp [specStepFull, specStepAll, specStep]
+
+/-- not vacuous: a swap and a 3-cycle of variable labels inside a longer continuation on `demo` -/
+example :
+    let ops : List Cqm.Op := [.relabelVariables [(.str "x", .str "y"), (.str "y", .str "x")],
+                              .viewAddLinear (some (.str "c")) (.str "y") 2,
+                              .relabelVariables [(.str "x", .str "i"), (.str "i", .str "y"), (.str "y", .str "x")],
+                              .changeVartype .spin (.str "i"), .flipVariable (.str "i"), .removeVariable (.str "x")]
+    (specRunFull (absCqm demo) ops).isSome = true
+    ∧ (∀ k, k < ops.length → ((demo.run (ops.take k)).step (ops.getD k .deepcopy)).2 = none)
+    ∧ (demo.run ops).labels = [.str "y", .str "i"] := by
   decide +kernel
 
 end C05
